@@ -23,6 +23,7 @@ import RedoModel.RunLoopWire
 import RedoModel.TokLoopWire
 import RedoModel.Base
 import RedoModel.Pretty
+import RedoModel.StatusLine
 open RedoModel RedoModel.Wire
 
 def decList (s : String) : Option (List (List Char)) :=
@@ -136,6 +137,15 @@ def respond (line : String) : String :=
       | .error e => "err:" ++ (match e with
           | .outOfFuel => "fuel" | .unknownTarget => "unknown" | .badDone => "baddone" | .emptyText => "empty")
     | _, _, _, _ => "bad-op"
+  | ["status-line", w, n, names] =>
+    match w.toNat?, n.toNat?, decList names with
+    | some w, some n, some ns =>
+      if w > 100000 then "bad-op" else enc (StatusLine.shown w (StatusLine.status w n ns))
+    | _, _, _ => "bad-op"
+  | ["thousands", n] =>
+    match n.toNat? with
+    | some n => if n < 18446744073709551616 then String.ofList (StatusLine.thousands n) else "bad-op"
+    | none => "bad-op"
   | ["raw-line", l] =>
     match dec l with
     | some l => if l.contains '\n' then "bad-op" else enc (Pretty.rawLine l)
